@@ -21,7 +21,8 @@ def run(tier):
     b = _build()
     c.builds_done()
     plan = [("G(0..4) x F", [["--n", n, "--alpha", "F"] for n in range(0, 5)]),
-            ("G(6) x F, m <= 6, containing a 6-cycle (all labelled hexagons)", [["--n", 6, "--alpha", "F", "--max-m", 6, "--need-cycle-len", 6]]),
+            ("G(6) x F, m <= 6, containing a 6-cycle (all labelled hexagons), default and reversed edge orientation", [["--n", 6, "--alpha", "F", "--max-m", 6, "--need-cycle-len", 6], ["--n", 6, "--alpha", "F", "--max-m", 6, "--need-cycle-len", 6, "--orient", 1]]),
+            ("G(4) x F reversed / alternating orientation", [["--n", 4, "--alpha", "F", "--orient", 1], ["--n", 4, "--alpha", "F", "--orient", 2]]),
             ("G(6) x F, m <= 7, containing a cycle of >= 5 edges, signed+fvs variants", [["--n", 6, "--alpha", "F", "--max-m", 7, "--need-cycle-len", 5, "--variants", "signed,fvs,signed_tbb,fvs_tbb"]]),
             ("G(5) x F", [["--n", 5, "--alpha", "F"]])]
     if tier == "thorough":
